@@ -38,6 +38,12 @@ var Layouts = []string{
 	"01/02/2006",
 	"02/01/2006",
 	"15:04:05",
+	// fractional seconds: a .999 field takes any number of digits in the value
+	// (none included), a .000 field exactly as many as the layout
+	"2006-01-02T15:04:05.999",
+	"15:04:05.000",
+	"15:04:05.999999",
+	"2006-01-02T15:04:05.999999999Z07:00",
 }
 
 // Values good for the layout of the same index (some also parse, differently,
@@ -50,6 +56,11 @@ var GoodValues = [][]string{
 	{"03/04/2020", "12/11/2019", "01/13/2021", "02/29/2024", "10/11/2012"},
 	{"03/04/2020", "12/11/2019", "13/01/2021", "29/02/2024", "10/11/2012"},
 	{"15:04:05", "00:00:00", "23:59:59"},
+	// fewer, as many and more fraction digits than the layout
+	{"2020-02-03T04:05:06.5", "2020-02-03T04:05:06.123", "2020-02-03T04:05:06.123456", "2020-02-03T04:05:06", "1969-12-31T23:59:59.75", "2020-02-03T04:05:06.120"},
+	{"10:00:00.120", "10:00:00.005", "23:59:59.999", "10:00:00.123"},
+	{"10:00:00.5", "10:00:00.123456", "10:00:00.123456789", "10:00:00.120", "10:00:00.05", "10:00:00"},
+	{"2020-02-03T04:05:06.5Z", "2020-02-03T04:05:06.123456789+01:00", "2020-02-03T04:05:06.123Z", "2021-11-07T01:30:00.25-05:00", "2020-02-03T04:05:06.000001Z"},
 }
 
 var BadValues = []string{"bogus", "", "2023-02-29", "2020-13-01", "23:59:60", "99/99/9999", "Feb 30 10:00:00", "2020-02-03T04:05:06", "x"}
